@@ -206,7 +206,7 @@ def wrapper_unit(first_outcome: str):
             th.set_ghost(s, "fcan", me, z3.BoolVal(isinstance(v, Exit) and v.val.cls == "CancelledError"))
             th.check_point(s, "thread-end")
             rel = [e for e in tr if e[0] == "release" and e[1] == "tok"]
-            ip.require(s, "count:pool-slot-released-exactly-once", z3.BoolVal(len(rel) == 1), ("C02", "C12"))
+            ip.require(s, "count:pool-slot-released-exactly-once", z3.BoolVal(len(rel) == 1), ("C02", "C12", "C05", "C01"))
             callouts = [e for e in tr if e[0] == "callout"]
             awaits = [e for e in tr if e[0] == "await_user"]
             n_e = [e for e in callouts if e[3] == L_ECB]
@@ -216,7 +216,7 @@ def wrapper_unit(first_outcome: str):
             e_callable = z3.And(ecb != NONE, z3.Select(callable_arr, ecb))
             c_callable = z3.And(ccb != NONE, z3.Select(callable_arr, ccb))
             # the cancel callback may have raised, in which case the end callback still must run (finally)
-            ip.require(s, "count:end-callback-exactly-once-iff-callable", z3.And(z3.BoolVal(len(n_e) <= 1), e_callable == z3.BoolVal(len(n_e) == 1)), P3 + ("C02", "C12"))
+            ip.require(s, "count:end-callback-exactly-once-iff-callable", z3.And(z3.BoolVal(len(n_e) <= 1), e_callable == z3.BoolVal(len(n_e) == 1)), P3 + ("C02", "C12", "C05"))
             ip.require(s, "count:cancel-callback-once-iff-cancelled-and-callable", z3.And(z3.BoolVal(len(n_c) <= 1), z3.And(z3.BoolVal(cancelled), c_callable) == z3.BoolVal(len(n_c) == 1)), P3)
             if n_e and n_c:
                 ip.require(s, "order:cancel-callback-before-end-callback", z3.BoolVal(tr.index(n_c[0]) < tr.index(n_e[0])), P3)
